@@ -140,6 +140,37 @@ func init() {
 			return append(out, need(c, "returned_result", 1000)...)
 		},
 	}
+	plans["C15"] = &plan{
+		rule:        "seeded programs of 3..20 calls over two reusable objects: Parse/ParseND with the reuse argument passed as the pointer last returned, as a struct copy (keeps the internal ring/channel across failed calls) or nil; inputs valid / failing in stage 1 / failing in stage 2 at the start, middle or end, sizes 40 B..400 KB on both sides of 8 KiB including 100x jumps, copy and no-copy, both kernels; in-place edits between calls; Serialize/Deserialize with one Serializer across mode changes and a reused destination; plus histories of one Serializer over documents on both sides of its 64 Ki buffers. Oracle for every call: the same call on fresh objects (same error-ness, equal documents, equal marshalled bytes); after a copy-mode call the input is overwritten and the document must not change; the index channel of the reused object must be empty after every call. A slice runs under the race detector. Distinct non-trivial = programs with >= 2 calls of which >= 1 failed or was above 8 KiB, by program seed",
+		assumptions: commonAssumptions,
+		jobs: func(tier string) []*job {
+			return []*job{
+				{variant: "plain", mode: "main", shards: 16, maxResume: 3},
+				{variant: "race", mode: "main", shards: 4, maxResume: 0, gomaxprocs: 4},
+			}
+		},
+		require: func(tier string, c, m map[string]int64, s map[string]map[string]struct{}) []string {
+			out := need(c, "failed_calls_in_histories", 5000)
+			out = append(out, need(c, "calls_above_8KiB", 5000)...)
+			out = append(out, need(c, "serializer_size_histories", 100)...)
+			return out
+		},
+	}
+	plans["C16"] = &plan{
+		rule:        "documents (generated, NDJSON, corpus) parsed in copy mode through Parse/ParseND with default options, explicit WithCopyStrings(true), and on an object used in no-copy mode before; every reader (two traversal routes, MarshalJSON, serialize round trip) is recorded, the input buffer is overwritten (zeros, 0xFF, quotes/backslashes, another valid document, random bytes, shifted by one) and every reader is run again. No-copy mode must expose the same document while the input is intact (strings aliasing the input are counted). Clone (nil and reused destination; of copy and of no-copy tapes): seeded Set* edits on the original must not show in the clone, edits on the clone (first one appends a string) must not show in the original and must be reflected by the clone, and the clone must survive overwriting the source's input. ParseNDStream: the chunk buffer of delivered values is overwritten, values are held, recycled through the reuse channel or re-read at once, and held values are re-read after the stream ended. Distinct non-trivial = documents with >= 1 string, by (document, overwrite pattern) hash, and streams with >= 2 chunks",
+		assumptions: commonAssumptions,
+		jobs: func(tier string) []*job {
+			return []*job{
+				{variant: "plain", mode: "main", shards: 16, maxResume: 3, gomaxprocs: 4, memlimit: "3GiB"},
+			}
+		},
+		require: func(tier string, c, m map[string]int64, s map[string]map[string]struct{}) []string {
+			out := need(c, "clone_rounds", 2000)
+			out = append(out, need(c, "strings_aliasing_input_in_no_copy_mode", 5000)...)
+			out = append(out, need(c, "stream_chunks", 5000)...)
+			return out
+		},
+	}
 	plans["C10"] = std("documents (strings holding every byte value and every pair of escape-needing bytes, every number kind, the C02 document workload, NDJSON) fresh and after seeded histories of in-place replacements and deletions; marshalled from the root iterator (MarshalJSON and MarshalJSONBuffer with a prefix), from single-value-scoped inner iterators (AdvanceIter / NextElementBytes / FindKey), Array.MarshalJSON and Elements.MarshalJSON. Each output must be valid JSON per the reference recogniser (valid UTF-8, well-formed surrogates, roots separated by LF), denote the model document (strings byte-equal, member order, numbers numerically equal) and be a fixed point of parse+marshal; a non-finite float placed with SetFloat must make every marshaller return an error. Distinct non-trivial = marshalled tapes whose text holds a container or an escape, by (document, edit history) hash", 16,
 		func(c, m map[string]int64) []string {
 			out := need(c, "edited_tapes", 1000)
